@@ -129,6 +129,7 @@ func (c *ctx) generic() {
 			c.v("C14/serve-exited-unasked", "Serve returned although its context was not cancelled and the listener was neither closed nor failed fatally: clients arriving later are not served")
 		}
 	}
+	c.blockedAdmissions()
 	for _, e := range c.r.Events {
 		if e.Kind == "published-mutated" {
 			c.v("C15/published-config-written", "configurations published to the server (indices %s) were written afterwards: serving requests or later loads modified a published value", e.S)
@@ -212,4 +213,47 @@ func trunc(b []byte) string {
 		return fmt.Sprintf("%x…(%d bytes)", b[:24], len(b))
 	}
 	return fmt.Sprintf("%x", b)
+}
+
+// blockedAdmissions (C14: other clients keep being served): when the only seams armed in a
+// run are slow keychain queries of some scopes, a connection of any other scope must get
+// its admission decision while those queries are still pending, i.e. before the run is
+// drained.
+func (c *ctx) blockedAdmissions() {
+	if c.p.Scen.Server != "ref" || len(c.p.Park) == 0 || len(c.p.Scen.Docs) != 1 {
+		return
+	}
+	slow := map[string]bool{}
+	for _, s := range c.p.Park {
+		if !strings.HasPrefix(s, "scope-keychain:") {
+			return
+		}
+		slow[strings.TrimPrefix(s, "scope-keychain:")] = true
+	}
+	d := c.p.Scen.Docs[0]
+	d.Normalize()
+	began := map[int]bool{}
+	ended := map[int]bool{}
+	for _, e := range c.r.Events {
+		if e.Kind == "drain" {
+			break
+		}
+		switch e.Kind {
+		case "get-begin":
+			began[e.Conn] = true
+		case "get-end":
+			ended[e.Conn] = true
+		}
+	}
+	for i := range c.p.Scen.Clients {
+		id := i + 1
+		if !began[id] || ended[id] {
+			continue
+		}
+		adm := plan.RefAdmission(d, &c.p.Scen.Clients[i])
+		if adm.Band != "" || slow[adm.Key] {
+			continue
+		}
+		c.v("C14/admission-blocked-behind-another-lookup", "conn %d from %s asked for admission and got no decision while the keychain query of another scope was pending: one slow lookup stops every other client from being served", id, c.p.Scen.Clients[i].Addr)
+	}
 }
